@@ -75,11 +75,12 @@ def _n1(ctx, core):
                     if b is None or b not in seeds:
                         continue
                     lits = [(s, _literal_seed(v)) for s, v in seeds[b] if _literal_seed(v) is not None]
-                    finite = [(s, x) for s, x in lits if x == x and abs(x) != float("inf")]
-                    infs = [s for s, v in seeds[b] if norm(v) in INF_TEXTS or (isinstance(v, ast.Call) and v.args and norm(v.args[0]) in INF_TEXTS)]
+                    finite = [(s, x) for s, x in lits if x == x]
+                    # +inf is a literal seed too: with a strict test a first row whose value IS +inf is never accepted
+                    finite += [(s, float("inf")) for s, v in seeds[b] if norm(v) in INF_TEXTS or (isinstance(v, ast.Call) and v.args and norm(v.args[0]) in INF_TEXTS)]
                     if not finite:
                         seen.add(id(h))
-                        ctx.ok(R, core, cmp_, f"bound `{b}` is seeded from data{' / +inf' if infs else ''}")
+                        ctx.ok(R, core, cmp_, f"bound `{b}` is seeded from data")
                         continue
                     # finite literal seed: need a flag disjunct `not flag` with flag False initially and set True with the bound
                     flag_ok = False
@@ -91,7 +92,8 @@ def _n1(ctx, core):
                             fs = seeds.get(f, [])
                             init_false = any(isinstance(v, ast.Constant) and v.value is False for _, v in fs)
                             set_true = [s for s, v in fs if isinstance(v, ast.Constant) and v.value is True]
-                            bound_sets = [s for s, v in seeds[b] if _literal_seed(v) is None]
+                            inf_seed_stmts = {id(s) for s, _ in finite}
+                            bound_sets = [s for s, v in seeds[b] if _literal_seed(v) is None and id(s) not in inf_seed_stmts]
                             # flag set wherever the bound is updated (same block, under this head)
                             paired = bool(set_true) and all(any(cfg.dominates(h, cfg.node_of(s2)) for s2 in set_true) for _ in [0]) and \
                                 all(cfg.node_of(bs) is not None and cfg.dominates(h, cfg.node_of(bs)) for bs in bound_sets)
@@ -99,8 +101,8 @@ def _n1(ctx, core):
                                 flag_ok = True
                     seen.add(id(h))
                     ctx.check(flag_ok, R, core, cmp_,
-                              f"acceptance is gated by `{norm(cmp_)}` where `{b}` starts at the finite literal {finite[0][1]!r}: rows whose value is >= that literal "
-                              f"(e.g. +inf) are never accepted although nothing dominates them",
+                              f"acceptance is gated by `{norm(cmp_)}` where `{b}` starts at the literal {finite[0][1]!r}: rows whose value is >= that literal "
+                              f"(+inf included: inf < inf is false) are never accepted although nothing dominates them",
                               f"`{b}` has a literal seed but the gate is disjoined with a no-best-yet flag that is false initially and set with the bound")
     ctx.floor(R, 3)
     # literal-seeded bounds used only to skip work (conservative lower bounds): recorded, with reason
@@ -260,7 +262,19 @@ def _n4(ctx, core):
     for x, s in shifts + lens:
         ctx.check(s == ref, R, core, x, f"block size {s} here but {ref} at the other sites: rows are looked up in the wrong block (window rows are skipped or block minima are stale)",
                   f"block size {s}")
-    ctx.floor(R, 6)
+    # the block that receives a new window row is the block of the row's own position
+    incs = [st for st in core.stmts() if isinstance(st, ast.AugAssign) and isinstance(st.target, ast.Name) and st.target.id == "w_size"]
+    wst = [st for st in core.stmts() for t, v, _ in assigned_targets(st) if isinstance(t, ast.Subscript) and _base_name(t) == "window" and "w_size" in norm(t.slice)]
+    bdef = [st for st in core.stmts() for t, v, _ in assigned_targets(st) if isinstance(t, ast.Name) and t.id == "b" and "w_size" in norm(v)]
+    ctx.require(len(incs) == 1 and wst and len(bdef) == 1, R, f"{core.fq}: window insertion block (increments {len(incs)}, stores {len(wst)}, block index defs {len(bdef)})")
+    inc = incs[0]
+    ok = all(w.lineno < inc.lineno for w in wst) and bdef[0].lineno < inc.lineno
+    ctx.check(ok, R, core, bdef[0], "w_size is incremented before the block index of the inserted row is computed (or before the row is stored): at every block boundary the row's values are "
+                                    "recorded in the NEXT block's minima, the row's own block keeps stale (too high) minima, is skipped, and rows it dominates are accepted",
+              "row stored and its block index computed from the same w_size, increment afterwards")
+    upd = [st for st in core.stmts() for t, v, _ in assigned_targets(st) if isinstance(t, ast.Subscript) and _base_name(t) == "block_mins" and "b" == norm(t.slice).strip("()").split(",")[0].strip() and st.lineno > wst[0].lineno]
+    ctx.check(bool(upd) and all(u.lineno > bdef[0].lineno for u in upd), R, core, upd[0] if upd else bdef[0], "block minima are updated with a stale block index", "block minima updated under the row's block index")
+    ctx.floor(R, 8)
 
 
 def _n5(ctx, core):
@@ -431,6 +445,12 @@ VARIANTS = [
         (FP, "                            if wk < ck:\n                                any_less = True", "                            if wk <= ck:\n                                any_less = True")]},
     {"kind": "S", "name": "candidate-first-comparison", "edits": [
         (FP, "                            if wk > ck:\n                                all_leq = False", "                            if ck < wk:\n                                all_leq = False")]},
-    {"kind": "S", "name": "best_c1-from-inf", "edits": [
+    {"kind": "S", "name": "best_c1-from-inf-with-flag", "edits": [
         (FP, "            best_c1 = numba.float64(0.0)\n", "            best_c1 = numba.float64(np.inf)\n")]},
+    {"kind": "F", "name": "inf-sentinel-without-flag", "rule": "C11-N1", "edits": [
+        (FP, "            best_c1 = numba.float64(0.0)\n", "            best_c1 = numba.float64(np.inf)\n"),
+        (FP, "                if not have_best or g_min_c1 < best_c1:", "                if g_min_c1 < best_c1:")]},
+    {"kind": "F", "name": "increment-before-block-index", "rule": "C11-N4", "edits": [
+        (FP, "                b = w_size >> 4\n                for kk in range(dv):\n                    v = window[w_size, kk]\n                    if v < block_mins[b, kk]:\n                        block_mins[b, kk] = v\n                w_size += 1\n",
+         "                w_size += 1\n                b = w_size >> 4\n                for kk in range(dv):\n                    v = local[i, kk]\n                    if v < block_mins[b, kk]:\n                        block_mins[b, kk] = v\n")]},
 ]
